@@ -73,10 +73,28 @@ pub fn match_known(findings: &[Finding], v: &Violation) -> Option<usize> {
     })
 }
 
+// ------------------------------------------------------------------ watchdog bookkeeping
+
+type Current = Option<(String, u64, Instant, Option<Vec<u32>>)>;
+static CURRENT: std::sync::Mutex<Current> = std::sync::Mutex::new(None);
+
+/// `execute`, with the run registered for the wall-clock watchdog (search runs, shrink
+/// candidates and trace re-runs alike: a shrink candidate may be the one that loops).
+fn watched_execute(sc: &Scenario, cfg: &RunCfg, src: TapeSrc) -> RunResult {
+    let tape = match &src {
+        TapeSrc::Replay(t) => Some(t.clone()),
+        TapeSrc::Seed(_) => None,
+    };
+    *CURRENT.lock().unwrap() = Some((sc.name.to_string(), cfg.index, Instant::now(), tape));
+    let r = execute(sc, cfg, src);
+    *CURRENT.lock().unwrap() = None;
+    r
+}
+
 // ------------------------------------------------------------------ shrinking
 
 fn fails_same(sc: &Scenario, cfg: &RunCfg, tape: &[u32], clause: &str, findings: &[Finding]) -> Option<RunResult> {
-    let r = execute(sc, cfg, TapeSrc::Replay(tape.to_vec()));
+    let r = watched_execute(sc, cfg, TapeSrc::Replay(tape.to_vec()));
     match &r.violation {
         Some(v) if v.clause == clause && match_known(findings, v).is_none() => Some(r),
         _ => None,
@@ -214,22 +232,20 @@ pub fn worker_main(prop: &str, tier: Tier, widx: u64, wcount: u64, out: &Path) -
     // Watchdog: a task that loops without ever yielding cannot be interrupted by the
     // simulator; a run that exceeds the wall-clock bound is reported as non-termination
     // (the only verdict in this framework that depends on wall time).
-    let current: std::sync::Arc<std::sync::Mutex<Option<(String, u64, Instant)>>> = std::sync::Arc::new(std::sync::Mutex::new(None));
     {
-        let current = current.clone();
         let out = out.to_path_buf();
         let prop = prop.to_string();
         let limit = watchdog_secs();
         std::thread::spawn(move || loop {
             std::thread::sleep(std::time::Duration::from_millis(500));
-            let cur = current.lock().unwrap().clone();
-            if let Some((scen, idx, started)) = cur {
+            let cur = CURRENT.lock().unwrap().clone();
+            if let Some((scen, idx, started, tape)) = cur {
                 if started.elapsed().as_secs() >= limit {
                     let v = json!({
                         "property": prop, "scenario": scen, "tier": tier.as_str(), "index": idx, "seed": seed,
                         "clause": format!("{prop}.run_terminates"),
                         "detail": format!("run did not finish within {limit} s of wall time: some task loops without yielding (scenario {scen}, index {idx})"),
-                        "tape": Value::Null, "trace": [],
+                        "tape": match tape { Some(t) => json!(t), None => Value::Null }, "trace": [],
                     });
                     let _ = std::fs::write(out.with_extension("hang"), serde_json::to_string(&v).unwrap());
                     std::process::exit(3);
@@ -251,9 +267,7 @@ pub fn worker_main(prop: &str, tier: Tier, widx: u64, wcount: u64, out: &Path) -
                 index: idx,
                 keep_trace: false,
             };
-            *current.lock().unwrap() = Some((sc.name.to_string(), idx, Instant::now()));
-            let r = execute(sc, &cfg, TapeSrc::Seed(run_seed(seed, sc.name, idx)));
-            *current.lock().unwrap() = None;
+            let r = watched_execute(sc, &cfg, TapeSrc::Seed(run_seed(seed, sc.name, idx)));
             agg.runs += 1;
             *agg.per_scenario.entry(sc.name.to_string()).or_insert(0) += 1;
             agg.steps += r.steps;
@@ -286,12 +300,12 @@ pub fn worker_main(prop: &str, tier: Tier, widx: u64, wcount: u64, out: &Path) -
                         keep_trace: true,
                         ..cfg.clone()
                     };
-                    let rr = execute(sc, &tcfg, TapeSrc::Replay(small.clone()));
+                    let rr = watched_execute(sc, &tcfg, TapeSrc::Replay(small.clone()));
                     let (vv, trace, tape) = match rr.violation {
                         Some(vv) if vv.clause == v.clause => (vv, rr.trace, small),
                         _ => {
                             // shrinking lost it (should not happen); fall back to the original
-                            let rr2 = execute(sc, &tcfg, TapeSrc::Replay(r.tape.clone()));
+                            let rr2 = watched_execute(sc, &tcfg, TapeSrc::Replay(r.tape.clone()));
                             (rr2.violation.unwrap_or(v.clone()), rr2.trace, r.tape.clone())
                         }
                     };
